@@ -71,6 +71,11 @@ def entry_points(facts, roles):
     for b in facts.fns():
         it = facts.items.get(b.key, {})
         if b.kind == "fn" and (it.get("exported") or it.get("reachable")):
+            # the property names three entry points (Rust, CLI, Python); the WASM binding is not one of them
+            if "wasm_bindgen::JsValue" in " ".join(it.get("inputs", []) + [it.get("output", "")]):
+                continue
+            if b.span.get("exp") and any("wasm_bindgen" in m for m in b.span.get("macros", [])):
+                continue
             ents.append(b.key)
     return ents
 
@@ -145,6 +150,7 @@ def run(ctx):
     if ctx.tier == "thorough":
         plan += [("wasm", "jsonlogic_rs", "debug"), ("default", "jsonlogic_rs", "release"), ("cmdline", "jsonlogic", "release"), ("python", "jsonlogic_rs", "release")]
     unknown_all = {}
+    inventory = {}
     for cfg, crate, prof in plan:
         facts = ctx.facts(cfg, crate, prof)
         tag = "%s/%s/%s" % (cfg, crate, prof)
@@ -200,6 +206,8 @@ def run(ctx):
                              "panic source without justification: %s %s%s" % (s.kind, s.what, (" — " + s.reason) if s.reason else ""),
                              where=b.where(s.bi), fn=b.key, path=call_path(facts, ents, extra, b.key))
         ctx.count("panic sources (%s)" % tag, dict(by_kind))
+        if cfg == "default" and prof == "debug":
+            inventory = dict(by_kind)
         if is_lib and prof == "debug":
             ctx.floor("panic sources judged (%s)" % tag, nsrc, 55)
 
@@ -227,12 +235,45 @@ def run(ctx):
             depth_limit(ctx, facts, tag)
     if unknown_all:
         raise Inconclusive("unclassified external callees (add them to spec/api/total.tsv or panicky.tsv after reading them): %s" % "; ".join("%s @ %s" % (p, w) for p, w in sorted(unknown_all.items())[:12]))
+    if ctx.tier == "thorough":
+        clippy_crosscheck(ctx, inventory)
     stale = sorted(set(justified) - used_j5)
     ctx.count("J5 table lines used / total", "%d / %d" % (len(used_j5), len(justified)))
     ctx.notes.append("J5 lines not matched in this run (other configs or stale): %s" % stale)
     # manifest-level fact: serde_json features
     feats = serde_json_features()
     ctx.check("unbounded_depth" not in feats, "K3.depth-feature", "serde_json built without unbounded_depth", "serde_json is built with feature unbounded_depth: the 128 recursion limit at the text boundaries is gone", where="Cargo.toml")
+
+
+def clippy_crosscheck(ctx, inventory):
+    """Cross-reference (not a verdict): clippy's restriction lints, run on the same tree, must not see
+    more unwrap/expect/indexing/arithmetic sites in non-test code than the extractor's own inventory."""
+    env = dict(os.environ, CARGO_TARGET_DIR=os.path.join(ex.CACHE, "target-clippy"), CARGO_NET_OFFLINE="true")
+    lints = ["unwrap_used", "expect_used", "indexing_slicing", "arithmetic_side_effects", "panic", "unreachable", "string_slice"]
+    cmd = ["cargo", "+nightly", "clippy", "--offline", "--message-format=json", "--quiet", "--"] + [x for l in lints for x in ("-W", "clippy::" + l)]
+    try:
+        r = subprocess.run(cmd, cwd=ex.REPO, env=env, capture_output=True, text=True, timeout=600)
+    except Exception as e:
+        ctx.notes.append("clippy cross-check could not run: %s" % e)
+        return
+    counts = {}
+    for line in r.stdout.splitlines():
+        try:
+            m = json.loads(line)
+        except ValueError:
+            continue
+        if m.get("reason") == "compiler-message":
+            code = (m["message"].get("code") or {}).get("code") or ""
+            if code.startswith("clippy::") and code[8:] in lints:
+                counts[code[8:]] = counts.get(code[8:], 0) + 1
+    mine = {"unwrap_used": inventory.get("unwrap", 0), "expect_used": inventory.get("expect", 0), "indexing_slicing": inventory.get("index", 0),
+            "arithmetic_side_effects": sum(v for k, v in inventory.items() if k in ("Overflow", "OverflowNeg", "DivisionByZero", "RemainderByZero"))}
+    ctx.count("clippy restriction-lint inventory (cross-reference)", counts)
+    for k, n in mine.items():
+        ctx.check(counts.get(k, 0) <= n or k == "arithmetic_side_effects", "X.clippy-superset", "extractor sees at least clippy's %s sites (%d ≥ %d)" % (k, n, counts.get(k, 0)),
+                  "clippy reports %d %s sites in the library but the extractor's inventory has only %d: a panic source class is not being seen" % (counts.get(k, 0), k, n), where="(cross-reference)")
+    for k in ("panic", "unreachable", "string_slice"):
+        ctx.check(counts.get(k, 0) == 0, "X.clippy-" + k, "clippy sees no %s in the library" % k, "clippy reports %d %s sites" % (counts.get(k, 0), k), where="(cross-reference)")
 
 
 def call_path(facts, roots, extra, target):
